@@ -110,6 +110,10 @@ class C06(Prop):
         rng = ctx.rng
         quick = ctx.tier == "quick"
         self.detector(ctx, demod, quick)
+        # the skeleton theorems listed above (coasting_bounded, lock_needs_decodable_frames) speak about this code only through trace inclusion:
+        # check it on this run too (same stage as C03: clean, damaged, sync-blanked and truncated-earlier-transmission receptions)
+        from props.c03 import PROP as C03P
+        C03P.traces(ctx, demod, mod, 6 if quick else 40)
 
         # clean transmissions
         nshort = 40
